@@ -1,6 +1,8 @@
 // C01 - application data only after an authenticated, completed handshake; nothing an attacker
 // without the keys sends is ever reported as received application data.
 #include "proto.h"
+#include "forge.h"
+#include "peek.h"
 
 static bool is_prefix(const Bytes &d, const Bytes &s) { return d.size() <= s.size() && std::equal(d.begin(), d.end(), s.begin()); }
 static Bytes concat(const std::vector<Bytes> &v) { Bytes o; for (auto &x : v) { o.insert(o.end(), x.begin(), x.end()); } return o; }
@@ -60,6 +62,7 @@ static std::vector<Plan> c01_fixed(int tier) {
             }
         }
     }
+    for (int variant = 1; variant <= 2; variant++) { for (int noems = 0; noems < 2; noems++) { Plan p; p.seed = 9900 + (uint64_t) (variant * 2 + noems); p.cfg["forge_limbo"] = variant; p.cfg["noems"] = noems; v.push_back(p); } }
     // 0-RTT grid: (limit in the ticket) x (limit of the server session that receives the resumption) x early writes x TLS 1.3 suite
     static const int E[] = { 0, 1024, 16384 };
     for (int e1 = 0; e1 < 3; e1++) {
@@ -79,7 +82,85 @@ static std::vector<Plan> c01_fixed(int tier) {
     return v;
 }
 
+// A keyless attacker plays the server of a TLS 1.2 ticket resumption: it knows only what is on the wire and GUESSES that the client will key the
+// connection from an all-zero master secret.  Variant 1: the client's stored session holds a session id and a ticket (what e.g. an OpenSSL server
+// hands out); variant 2: a ticket only (MatrixSSL server).  The attacker answers with a ServerHello carrying another session id and no ticket
+// extension, then ChangeCipherSpec, Finished and an application record, all sealed under keys derived from the zero secret.
+static RunResult c01_forge_exec(const Plan &p) {
+    RunResult res;
+    vsim_run_reset(p.seed);
+    sim_global_open();
+    int variant = (int) p.get("forge_limbo");
+    {
+        PairCfg pc; pc.version = v_tls_1_2; pc.suites = { TLS_RSA_WITH_AES_128_GCM_SHA256 }; pc.server_identity = KK_RSA2048; pc.tickets = true;
+        if (p.get("noems")) { pc.ems_c = -1; }
+        TlsWorld w;
+        bool ok = w.setup(pc) && w.connect() && w.handshake();
+        if (ok) { Bytes a = tagged_payload(0, 1, 20); w.cli->app_send(a.data(), a.size()); w.pump(); w.cli->app_close(); w.pump(); }
+        w.close_sessions();
+        int idLen = 0, tLen = 0, hasPsk = 0; unsigned int cid = 0;
+        if (ok) { vsim_sid_info((struct sslSessionId *) w.sid, &idLen, &tLen, &hasPsk, &cid); }
+        if (!ok || tLen == 0) { res.harness_error = true; res.detail = "first connection / ticket missing"; }
+        else {
+            if (variant == 1) { memset(vsim_sid_id_bytes((struct sslSessionId *) w.sid), 0x42, 32); vsim_sid_set_idlen((struct sslSessionId *) w.sid, 32); }
+            EpCfg c; c.server = false; c.node = NODE_CLIENT; c.versions = { v_tls_1_2 }; c.suites = pc.suites; c.sid = w.sid; c.ticket_resumption = true; c.cb_policy = CB_STRICT; c.ems = pc.ems_c;
+            MxEndpoint cli;
+            if (cli.create(c, w.ckeys) < 0) { res.harness_error = true; res.detail = "client create"; }
+            else {
+                Bytes ch = cli.pull();
+                if (ch.size() < 5 + 4 + 2 + 32) { res.harness_error = true; res.detail = "no ClientHello"; }
+                else {
+                    Bytes ch_msg(ch.begin() + 5, ch.end());
+                    Bytes crand(ch_msg.begin() + 6, ch_msg.begin() + 38);
+                    Bytes srand(32); for (size_t i = 0; i < 32; i++) { srand[i] = (unsigned char) (0xa0 + i); }
+                    Bytes body = { 3, 3 }; body.insert(body.end(), srand.begin(), srand.end());
+                    body.push_back(32); for (int i = 0; i < 32; i++) { body.push_back(0x77); }       // a session id the client did not offer
+                    body.push_back(0x00); body.push_back(0x9c); body.push_back(0);
+                    Bytes ext;
+                    if (!p.get("noems")) { ext.insert(ext.end(), { 0x00, 0x17, 0x00, 0x00 }); }     // echo extended_master_secret if the client offered it
+                    if (!ext.empty()) { body.push_back((unsigned char) (ext.size() >> 8)); body.push_back((unsigned char) ext.size()); body.insert(body.end(), ext.begin(), ext.end()); }
+                    Bytes sh_msg = { 2, 0, (unsigned char) (body.size() >> 8), (unsigned char) body.size() }; sh_msg.insert(sh_msg.end(), body.begin(), body.end());
+                    Bytes zero_ms(48, 0);
+                    Bytes seed = srand; seed.insert(seed.end(), crand.begin(), crand.end());
+                    Bytes kb = forge_tls12_prf_sha256(zero_ms, "key expansion", seed, 40);
+                    Bytes tr = ch_msg; tr.insert(tr.end(), sh_msg.begin(), sh_msg.end());
+                    Bytes vd = forge_tls12_prf_sha256(zero_ms, "server finished", forge_sha256(tr), 12);
+                    if (kb.size() != 40 || vd.size() != 12) { res.harness_error = true; res.detail = "PRF"; }
+                    else {
+                        Bytes skey(kb.begin() + 16, kb.begin() + 32), siv(kb.begin() + 36, kb.begin() + 40);
+                        Bytes fin = { 20, 0, 0, 12 }; fin.insert(fin.end(), vd.begin(), vd.end());
+                        Bytes evil = { 'A', 'T', 'T', 'A', 'C', 'K', 'E', 'R', '-', 'D', 'A', 'T', 'A' };
+                        Bytes r1 = make_record(22, 0x0303, sh_msg), r2 = make_record(20, 0x0303, Bytes{ 1 });
+                        Bytes r3 = forge_gcm_record(22, skey, siv, 0, fin), r4 = forge_gcm_record(23, skey, siv, 1, evil);
+                        cli.feed(r1.data(), r1.size());
+                        if (getenv("VSIM_TRACE")) { Bytes o = cli.pull(); fprintf(stderr, "   client after forged ServerHello: out=%s err=%d\n", hex(o.data(), o.size()).c_str(), cli.first_error); }
+                        if (cli.alive()) { cli.feed(r2.data(), r2.size()); }
+                        if (cli.alive()) { cli.feed(r3.data(), r3.size()); }
+                        (void) cli.pull();
+                        if (cli.alive()) { cli.feed(r4.data(), r4.size()); }
+                        bool completed = cli.alive() && cli.is_complete();
+                        std::string ctx = std::string("cli,tls1.2,forged_server_zero_master,") + (variant == 1 ? "id_and_ticket" : "ticket_only");
+                        res.count(std::string("forge.") + (completed ? "client_completed" : "client_refused"));
+                        if (!cli.delivered.empty()) {
+                            res.violate("appdata_not_from_peer", ctx, "a server that holds no key at all (it guessed an all-zero master secret for the ticket resumption) completed the handshake with the client and " +
+                                        std::to_string(cli.delivered[0].size()) + " bytes of its data were delivered to the application");
+                        } else if (completed) {
+                            res.violate("completed_with_keyless_peer", ctx, "the client reported the handshake complete with a server that holds no key at all (all-zero master secret)");
+                        }
+                        res.fingerprint = mix64(cli.fp.value(), (uint64_t) variant);
+                        res.nontrivial = true;
+                    }
+                }
+            }
+        }
+        w.teardown();
+    }
+    sim_global_close();
+    return res;
+}
+
 static RunResult c01_exec(const Plan &p) {
+    if (p.get("forge_limbo")) { return c01_forge_exec(p); }
     RunResult res;
     vsim_run_reset(p.seed);
     sim_global_open();
